@@ -796,5 +796,11 @@ func (e *executor) observables() map[string]string {
 		sort.Strings(res)
 		out["zone:"+z.Name+"<"+z.Parent] = fmt.Sprintf("%s %v %v", z.Type, attrs, res)
 	}
+	if wbObservables != nil {
+		wbObservables(e, out)
+	}
 	return out
 }
+
+// wbObservables adds what only the white-box hooks can see (set by a verifwb file).
+var wbObservables func(e *executor, out map[string]string)
